@@ -783,6 +783,131 @@ static void opEnv(const HxLine& l)
   hxEndLine();
 }
 
+// late <order> <mask> <delay ms> <code>: the child waits, writes a short line to every redirected output stream, creates a
+// marker file and exits with <code>; the parent, depending on <order>,
+//   join      calls join() at once and never reads          dtor      lets the destructor join
+//   readjoin  reads the streams to end-of-file, then joins   closejoin closes its ends first, then joins
+//   kill      kills the child while it is still waiting
+static unsigned lateCounter = 0;
+static void opLate(const HxLine& l)
+{
+  const char* order = l.tok[1];
+  uint mask = (uint)hxNum(l, 2) & 7;
+  char a2[16], a3[16], a4[16], marker[600];
+  snprintf(a2, sizeof(a2), "%u", mask & 3);
+  snprintf(a3, sizeof(a3), "%lu", hxNum(l, 3));
+  snprintf(a4, sizeof(a4), "%lu", hxNum(l, 4));
+  const char* dir = getenv("TMPDIR");
+  snprintf(marker, sizeof(marker), "%s/nstd-args-marker-%d-%u", dir && *dir ? dir : "/tmp", (int)getpid(), ++lateCounter);
+  unlink(marker);
+  char* argv[] = {(char*)childPath, (char*)"@late", a2, a3, a4, marker};
+  Capture cap(true);
+  bool diverted = !(mask & 1);
+  if(diverted && !divertStdout())
+  {
+    printf("FAULT tmpfile");
+    hxEndLine();
+    return;
+  }
+  Process* p = new Process;
+  bool ok = p->open(String(childPath, childPathLen), 6, argv, mask);
+  uint pipes = pipesOf(*p);
+  bool joined = false, killed = false, drained = true;
+  uint32 exitCode = 9999;
+  bool haveCode = false;
+  uint after = 0;
+  if(ok)
+  {
+    if(strcmp(order, "join") == 0)
+    {
+      joined = p->join(exitCode);
+      haveCode = joined;
+    }
+    else if(strcmp(order, "readjoin") == 0)
+    {
+      if(mask & 3)
+        drained = drain(*p, mask, cap);
+      joined = p->join(exitCode);
+      haveCode = joined;
+    }
+    else if(strcmp(order, "closejoin") == 0)
+    {
+      p->close();
+      joined = p->join(exitCode);
+      haveCode = joined;
+    }
+    else if(strcmp(order, "kill") == 0)
+      killed = p->kill();
+    // dtor: nothing
+  }
+  if(strcmp(order, "dtor") != 0)
+    after = pipesOf(*p) | (p->pid ? 8u : 0u);
+  delete p;
+  if(diverted)
+    restoreStdout(cap);
+  bool completed = access(marker, F_OK) == 0;
+  unlink(marker);
+  printf("late ok=%d pipes=%u exit=", ok ? 1 : 0, pipes);
+  if(haveCode)
+    printf("%u", (unsigned)exitCode);
+  else
+    fputc('-', stdout);
+  printf(" completed=%d | joined=%d killed=%d eof=%d after=%u", completed ? 1 : 0, joined ? 1 : 0, killed ? 1 : 0, drained ? 1 : 0, after);
+  hxEndLine();
+}
+
+// sig <mask> <signal>: what join() reports for a child that is terminated by a signal
+static void opSig(const HxLine& l)
+{
+  uint mask = (uint)hxNum(l, 1) & 7;
+  char a2[16];
+  snprintf(a2, sizeof(a2), "%lu", hxNum(l, 2));
+  char* argv[] = {(char*)childPath, (char*)"@raise", a2};
+  Capture cap(true);
+  bool diverted = !(mask & 1);
+  if(diverted && !divertStdout())
+  {
+    printf("FAULT tmpfile");
+    hxEndLine();
+    return;
+  }
+  Process p;
+  bool ok = p.open(String(childPath, childPathLen), 3, argv, mask);
+  uint pipes = pipesOf(p);
+  uint32 exitCode = 9999;
+  bool joined = ok && p.join(exitCode);
+  if(diverted)
+    restoreStdout(cap);
+  printf("sig ok=%d pipes=%u | joined=%d exit=%u after=%u", ok ? 1 : 0, pipes, joined ? 1 : 0, (unsigned)exitCode, pipesOf(p) | (p.pid ? 8u : 0u));
+  hxEndLine();
+}
+
+// killbusy <mask>: a child that writes without end to its redirected output streams is killed
+static void opKillBusy(const HxLine& l)
+{
+  uint mask = (uint)hxNum(l, 1) & 7;
+  char a2[16];
+  snprintf(a2, sizeof(a2), "%u", mask & 3);
+  char* argv[] = {(char*)childPath, (char*)"@spam", a2};
+  Capture cap(false);
+  bool diverted = !(mask & 1);
+  if(diverted && !divertStdout())
+  {
+    printf("FAULT tmpfile");
+    hxEndLine();
+    return;
+  }
+  Process p;
+  bool ok = p.open(String(childPath, childPathLen), 3, argv, mask);
+  uint pipes = pipesOf(p);
+  usleep(20000);
+  bool killed = ok && p.kill();
+  if(diverted)
+    restoreStdout(cap);
+  printf("kb ok=%d pipes=%u | killed=%d after=%u", ok ? 1 : 0, pipes, killed ? 1 : 0, pipesOf(p) | (p.pid ? 8u : 0u));
+  hxEndLine();
+}
+
 // execfail <kind> <streams>: the executable cannot be started (execvpe fails in the vfork child:
 // message `<program>: <strerror>` on stderr, _exit(EXIT_FAILURE)).  kind: path = a file that does not exist,
 // empty = the command line "", blank = the command line " "
@@ -1060,6 +1185,12 @@ int main(int argc, char** argv)
       opFdTable(l);
     else if(hxIs(l, "execfail", 2))
       opExecFail(l);
+    else if(hxIs(l, "late", 4))
+      opLate(l);
+    else if(hxIs(l, "sig", 2))
+      opSig(l);
+    else if(hxIs(l, "killbusy", 1))
+      opKillBusy(l);
     else if(l.ntok >= 2 && strcmp(l.tok[0], "env") == 0)
       opEnv(l);
     else
